@@ -31,6 +31,9 @@ type Biscuit struct {
 var (
 	// ErrSymbolTableOverlap is returned when multiple blocks declare the same symbols
 	ErrSymbolTableOverlap = errors.New("biscuit: symbol table overlap")
+	// ErrSymbolTableMismatch is returned when appending a block that was built on top of the symbol
+	// table of another token
+	ErrSymbolTableMismatch = errors.New("biscuit: block was built for a different symbol table")
 	// ErrInvalidAuthorityIndex occurs when an authority block index is not 0
 	ErrInvalidAuthorityIndex = errors.New("biscuit: invalid authority index")
 	// ErrInvalidAuthorityFact occurs when an authority fact is an ambient fact
@@ -164,6 +167,13 @@ func (b *Biscuit) Append(rng io.Reader, block *Block) (*Biscuit, error) {
 
 	if !b.symbols.IsDisjoint(block.symbols) {
 		return nil, ErrSymbolTableOverlap
+	}
+
+	// a block built on top of another symbol table (a builder created from another token of the family)
+	// would be silently reinterpreted: its indexes denote other symbols here
+	if base := block.symbolsBase - 1; block.symbolsBase > 0 &&
+		(base > b.symbols.Len() || (base != b.symbols.Len() && block.symbols.Len() > 0)) {
+		return nil, ErrSymbolTableMismatch
 	}
 
 	// clone biscuit fields and append new block
